@@ -194,6 +194,10 @@ func (vc *VC) wrap(term string, bits int, signed bool) string {
 		return fmt.Sprintf("(mod %s %s)", term, m)
 	}
 	h := new(big.Int).Lsh(big.NewInt(1), uint(bits-1)).String()
+	if bits == 64 {
+		// same value, spelled so that the in-range case (the one that matters) needs no modular reasoning
+		return fmt.Sprintf("(ite (and (<= (- %s) %s) (< %s %s)) %s (- (mod (+ %s %s) %s) %s))", h, term, term, h, term, term, h, m, h)
+	}
 	return fmt.Sprintf("(- (mod (+ %s %s) %s) %s)", term, h, m, h)
 }
 
